@@ -35,6 +35,13 @@ theorem step_inv_ipClear (s s' : St) (o : Nat) (hi : Inv s) (h : step s (.ipClea
 theorem step_inv_jtDtor (s s' : St) (hh j : Nat) (hi : Inv s) (h : step s (.jtDtor hh j) = some s') : Inv s' := by join_step
 theorem step_inv_jtStop (s s' : St) (hh j : Nat) (f : Bool) (hi : Inv s) (h : step s (.jtStop hh j f) = some s') : Inv s' := by join_step
 theorem step_inv_jtJoined (s s' : St) (hh j : Nat) (hi : Inv s) (h : step s (.jtJoined hh j) = some s') : Inv s' := by join_step
+theorem step_inv_mvCtor (s s' : St) (hh h1 : Nat) (o : Option Nat) (hi : Inv s) (h : step s (.mvCtor hh h1 o) = some s') : Inv s' := by join_step
+theorem step_inv_mvAssign (s s' : St) (hh h1 : Nat) (o : Option Nat) (hi : Inv s) (h : step s (.mvAssign hh h1 o) = some s') : Inv s' := by join_step
+theorem step_inv_mvTerm (s s' : St) (hh h1 : Nat) (hi : Inv s) (h : step s (.mvTerm hh h1) = some s') : Inv s' := by join_step
+theorem step_inv_swap (s s' : St) (hh h1 : Nat) (o : Option Nat) (hi : Inv s) (h : step s (.swap hh h1 o) = some s') : Inv s' := by join_step
+theorem step_inv_dtorOk (s s' : St) (hh j : Nat) (hi : Inv s) (h : step s (.dtorOk hh j) = some s') : Inv s' := by join_step
+theorem step_inv_dtorTerm (s s' : St) (hh j : Nat) (hi : Inv s) (h : step s (.dtorTerm hh j) = some s') : Inv s' := by join_step
+theorem step_inv_jtSkip (s s' : St) (hh j : Nat) (hi : Inv s) (h : step s (.jtSkip hh j) = some s') : Inv s' := by join_step
 
 theorem step_inv (s s' : St) (e : Ev) (hi : Inv s) (h : step s e = some s') : Inv s' := by
   cases e with
@@ -70,6 +77,13 @@ theorem step_inv (s s' : St) (e : Ev) (hi : Inv s) (h : step s e = some s') : In
   | jtDtor hh j => exact step_inv_jtDtor s s' hh j hi h
   | jtStop hh j f => exact step_inv_jtStop s s' hh j f hi h
   | jtJoined hh j => exact step_inv_jtJoined s s' hh j hi h
+  | mvCtor hh h1 o => exact step_inv_mvCtor s s' hh h1 o hi h
+  | mvAssign hh h1 o => exact step_inv_mvAssign s s' hh h1 o hi h
+  | mvTerm hh h1 => exact step_inv_mvTerm s s' hh h1 hi h
+  | swap hh h1 o => exact step_inv_swap s s' hh h1 o hi h
+  | dtorOk hh j => exact step_inv_dtorOk s s' hh j hi h
+  | dtorTerm hh j => exact step_inv_dtorTerm s s' hh j hi h
+  | jtSkip hh j => exact step_inv_jtSkip s s' hh j hi h
 
 theorem inv_of_accepted {log : List Ev} {s : St} (h : runLog step init log = some s) : Inv s :=
   inv_of_runLog Inv (fun s e s' => step_inv s s' e) inv_init h
